@@ -235,8 +235,9 @@ def ts_stk(prog):
         if isinstance(v, tuple) and v and v[0] == "agg" and (v[2] or "").endswith("SatState") and "model" in v[5]:
             m = strip(v[4][v[5].index("model")])
             src = strip(m[1][1]) if canon.is_payload(m, variant="PartialSAT") else None
-            ok = src is not None and mir.is_call(src, "decide") and len(src[2]) == 3 and strip(src[2][2]) == ("param", 2) and \
-                "state_stack" in show(src[2][1])
+            # further arguments (a depth budget, a flag) are the propagator's business as long as they are constants
+            ok = src is not None and mir.is_call(src, "decide") and len(src[2]) >= 3 and strip(src[2][2]) == ("param", 2) and \
+                "state_stack" in show(src[2][1]) and all(strip(a)[0] in ("const", "constitem") for a in src[2][3:])
             if not ok:
                 errs.append("the model of the pushed state is %s, not the result of unit propagation from the top model "
                             "with this call's literal" % show(m)[:70])
